@@ -568,6 +568,8 @@ func (w *World) exec(c core.Cmd) bool {
 			return false
 		}
 		w.bulkDone = true
+		w.noYield = true
+		defer func() { w.noYield = false }()
 		l, inc := in.log, in.inc
 		for i := 0; i < w.prof.Bulk; i++ {
 			it := w.makeItem(500000+i, 3)
